@@ -33,6 +33,7 @@ function tag($x) {
   if (is_object($x)) { return "o:" . get_class($x); }
   return "?";
 }
+function c19_id($x) { return $x; }
 """
 
 # class tables: name -> (params, [(prop, declared type)]) ; declared type: "T"-style parameter name,
@@ -83,6 +84,9 @@ def class_decls(tbl):
                 out.append("  public function __construct(public %s$%s) {}" % ((t + " ") if t else "", p))
             else:
                 out.append("  public %s$%s;" % ((t + " ") if t else "", p))
+        if ctor is None:
+            # an untyped constructor argument, so that another instantiation can be created INSIDE the argument list
+            out.append("  public $inner;\n  public function __construct($inner = null) { $this->inner = $inner; }")
         for p, t in props:
             out.append("  public function put_%s($x) { $this->%s = $x; return 1; }" % (p, p))
             out.append("  public function chk_%s(%s$x) { return 1; }" % (p, (t + " ") if t else ""))
@@ -122,6 +126,20 @@ def op_lines(ops, emit, fs):
             # "Y": the error is the one about too few type arguments (an observable of its own), "X": any other
             out.append('try { $o%d = %s; %s } catch (Throwable $e) { %s }' % (
                 var, ex, emit('"N"'), emit('(strpos($e->getMessage(), "\u7c7b\u578b\u5b9e\u53c2") !== false ? "Y" : "X")')))
+        elif o[0] == "nest":
+            # one statement: the outer instantiation's constructor argument contains the next one (depth 1-3), directly,
+            # through a function call, or as an array element; `short` = the Box<int>(...) shorthand without `new`
+            _, form, items = o
+            kw = "" if form == "short" else "new "
+            ex = "%s%s<%s>()" % (kw, items[-1][1], ", ".join(items[-1][2]))
+            for var, cls, args in reversed(items[:-1]):
+                inner = {"direct": ex, "short": ex, "call": "c19_id(%s)" % ex, "array": "[%s]" % ex}[form]
+                ex = "%s%s<%s>(%s)" % (kw, cls, ", ".join(args), inner)
+            st = "$o%d = %s;" % (items[0][0], ex)
+            for (v0, _, _), (v1, _, _) in zip(items, items[1:]):
+                st += " $o%d = $o%d->inner%s;" % (v1, v0, "[0]" if form == "array" else "")
+            n = len(items)
+            out.append('try { %s %s } catch (Throwable $e) { %s }' % (st, " ".join(emit('"N"') for _ in range(n)), " ".join(emit('"X"') for _ in range(n))))
         elif o[0] == "write":
             _, path, var, p, v = o
             if path == "direct":
@@ -221,6 +239,10 @@ def coq_ops(ops):
             res.append('ONewC "%s" %s %s' % (o[2], coq_list(coq_cty(a) for a in o[3]), coq_val(o[4])))
         elif o[0] == "newraw":
             res.append('ONewRaw "%s"' % o[2])
+        elif o[0] == "nest":
+            # created innermost first; each is an ordinary instantiation with its OWN type arguments
+            for var, cls, args in sorted(o[2], key=lambda it: it[0]):
+                res.append('ONew "%s" %s' % (cls, coq_list(coq_cty(a) for a in args)))
         else:
             res.append('ORead %d%%nat "%s"' % (o[1], o[2]))
     return coq_list(res)
@@ -343,6 +365,43 @@ def enumerated_c(tier, rng):
     return cases
 
 
+NEST_FORMS = ["direct", "call", "array", "short"]
+
+
+def enumerated_nest(tier, rng):
+    """an instantiation whose constructor ARGUMENTS contain another generic instantiation with other type arguments:
+    Box<a>(Box<b>) for all a != b x 4 forms (direct / through a function call / as an array element / shorthand without
+    `new`); depth 2 and 3 chains and Pair<K,V>(Pair<K',V'>) / mixed Box-Pair chains sampled; every instance, outer first,
+    is then probed with all value kinds (stores, read, calls)."""
+    tbl = [BOX, PAIR]
+    byn = {c[0]: c for c in tbl}
+    chains = []
+    for a in ARGS:
+        for b in ARGS:
+            if a != b:
+                chains.append([("Box", [a]), ("Box", [b])])
+    def rnd_inst():
+        return ("Box", [rng.choice(ARGS)]) if rng.random() < 0.5 else ("Pair", [rng.choice(ARGS), rng.choice(ARGS_X)])
+    for _ in range(60 if tier == "quick" else 600):
+        chains.append([rnd_inst() for _ in range(rng.randint(2, 4))])
+    chains.append([("Pair", ["int", "string"]), ("Pair", ["array", "A"])])
+    chains.append([("Box", ["A"]), ("Box", ["int"])])
+    cases = []
+    for ci, ch in enumerate(chains):
+        for form in NEST_FORMS:
+            if form == "short" and any(len(a) != 1 for _, a in ch):
+                continue        # the shorthand Name<X>(...) exists for exactly one type argument (ident_parser.go)
+            n = len(ch)
+            # the model creates the innermost first: it gets the lowest index
+            items = [(n - 1 - k, cls, args) for k, (cls, args) in enumerate(ch)]
+            ops = [("nest", form, items)]
+            live = sorted((v, cls, args) for v, cls, args in items)
+            live.sort(key=lambda t: -t[0])      # probe the OUTER object first
+            ops += probe_all(byn, live, ci)
+            cases.append({"tbl": tbl, "ops": ops, "gen": "nest%d" % (n - 1)})
+    return cases
+
+
 def seeded_ops(rng, tbl, nulls=False):
     byn = {c[0]: c for c in tbl}
     ops, live = [], []
@@ -386,6 +445,17 @@ def seeded_ops(rng, tbl, nulls=False):
             elif r >= 0.08 and r < 0.14:
                 ops.append(("newraw", var, c[0], []))    # no type arguments at all
                 live.append((var, c[0], []))
+            elif r >= 0.14 and r < 0.24 and nargs >= len(c[1]):
+                # nested: this instantiation's constructor argument contains 1-2 further instantiations
+                plain = [x for x in tbl if x[3] is None]
+                chain = [(c[0], args)]
+                for _ in range(rng.randint(1, 2)):
+                    ic = rng.choice(plain)
+                    chain.append((ic[0], [rng.choice(ARGS_X) for _ in ic[1]]))
+                n = len(chain)
+                items = [(var + n - 1 - k, cls, a) for k, (cls, a) in enumerate(chain)]
+                ops.append(("nest", rng.choice(NEST_FORMS if all(len(a) == 1 for _, a in chain) else NEST_FORMS[:3]), items))
+                live += sorted((v, cls, a) for v, cls, a in items)
             elif nargs >= len(c[1]):
                 ops.append(("new", var, c[0], args))
                 live.append((var, c[0], args))
@@ -481,6 +551,8 @@ def run_impl(binary, srcs, workers=6):
 def op_key(o):
     if o[0] in ("new", "newraw"):
         return o[0]
+    if o[0] == "nest":
+        return "nest:%s:%d" % (o[1], len(o[2]))
     if o[0] == "newc":
         return "newc:%s" % o[4][0]
     if o[0] == "write":
@@ -488,6 +560,16 @@ def op_key(o):
     if o[0] == "call":
         return "call:%s" % o[3][0]
     return "read"
+
+
+def op_at(ops, pos):
+    """the generated operation that produced observation number pos (a nest op produces one per instance)"""
+    k = 0
+    for o in ops:
+        k += len(o[2]) if o[0] == "nest" else 1
+        if pos is not None and pos < k:
+            return o
+    return None
 
 
 def norm_op(o):
@@ -544,7 +626,7 @@ def main(ck):
         for c in mcases:
             c["val"] = tuple(c["val"])
     else:
-        cases = enumerated(ck.tier) + enumerated_c(ck.tier, rng) + seeded(rng, 1500 if ck.tier == "quick" else 30000)
+        cases = enumerated(ck.tier) + enumerated_c(ck.tier, rng) + enumerated_nest(ck.tier, rng) + seeded(rng, 1500 if ck.tier == "quick" else 30000)
         mcases = member_cases()
         groups = conc_groups(rng, 60 if ck.tier == "quick" else 1500)
 
@@ -611,11 +693,12 @@ def main(ck):
         pos_m, pos_s = (cls[2] if cls[0] == 1 else None), (cls[3] if cls[1] == 2 else None)
         cls = [x for x in cls[:2] if x]
         pos = pos_s if pos_s is not None else pos_m
-        what = op_key(c["ops"][pos]) if pos is not None and pos < len(c["ops"]) else "length"
+        the_op = op_at(c["ops"], pos)
+        what = op_key(the_op) if the_op is not None else "length"
         conc = c.get("gen") == "conc"
         rc_ = c["group"] if conc else c
         rep = {"case": rc_, "impl_out": o["out"].split("\n"), "script": srcs[i], "first_difference_at_op": pos,
-               "op": c["ops"][pos] if pos is not None and pos < len(c["ops"]) else None}
+               "op": the_op}
         if conc:
             rep["history"] = c["hist"]
         pre = "conc:" if conc else "history:"
@@ -658,7 +741,8 @@ def main(ck):
             continue
         distinct.add(key)
         news = [o for o in c["ops"] if o[0] in ("new", "newc", "newraw")]
-        argsets = set(tuple(o[3]) for o in news)
+        argsets = set(tuple(o[3]) for o in news) | set(tuple(it[2]) for o in c["ops"] if o[0] == "nest" for it in o[2])
+        news = news + [it for o in c["ops"] if o[0] == "nest" for it in o[2]]
         writes = [o for o in c["ops"] if o[0] == "write"]
         if len(argsets) >= 2 and writes:
             nontriv += 1
@@ -685,7 +769,8 @@ def main(ck):
                    "stores/reads/calls of chk_p(<declared type> $x); every probe also calls chk_p with the 6 non-null value kinds; "
                    "enumc: every sequence of 1-2 (quick: +700 sampled of 3, thorough: all of 3) creation events over Box<T>/PBox<T> "
                    "{new+matching call, new+non-matching call, ctor matching, ctor non-matching} x 4 argument types + raw new; every second "
-                   "history creates through factory functions (one `new` node executed several times); 4% of the seeded histories give null "
+                   "history creates through factory functions (one `new` node executed several times); nest*: an instantiation whose constructor arguments contain "
+                   "1-3 further instantiations with other type arguments (directly / through a call / as an array element / Name<X>() shorthand), every instance then probed, outer first; 4% of the seeded histories give null "
                    "to a typed parameter (recorded findings); concurrently: groups of 3-4 seeded histories spawned as coroutines of one VM "
                    "behind a start barrier, 3 runs per group under -race, every history compared with the model of that history alone; "
                    "non-trivial = distinct history with at least two different instantiations "
